@@ -44,6 +44,14 @@ def run(ctx):
     if stats["faults"] > 3:
         raise common.Inconclusive("too many harness faults in the pipelining run: %s" % stats)
     res2, distinct, classes, samples2 = c08.judge(ctx, obs2, stats, prop="C07")
+    # the send-side consequence of known finding F1, reproduced with gates: after an accepted deselection a data send still passes
+    for line in open(obs2):
+        if '"f1gated"' in line:
+            d = json.loads(line)
+            sa = d.get("send_after_deselect")
+            if sa and (sa["peer_data"] > 0 or sa["err"] == "nil"):
+                ctx.violation("a data send after an accepted Deselect reached the peer (State() stuck Selected): %s" % common.short(sa, 200),
+                              dict(binding="B2 gated (sup.step.loaded / sup.commit.cas)", signature="c07:StuckSelectedAfterDeselect", observation=d))
     ctx.cov.update(states=res["states"] + res2["states"], transitions=res["transitions"] + res2["transitions"],
                    traces_validated_against_impl=res["lines"] + res2["lines"],
                    evaluations=res["lines"] + res2["lines"], distinct_nontrivial=len(lines) + len(distinct),
